@@ -317,7 +317,8 @@ def shrink(mod, case, sig, budget_s):
         for cand in _candidates(best, mod):
             if time.time() - t0 > budget_s:
                 break
-            if len(canon(cand)) >= len(canon(best)):
+            cc, cb = canon(cand), canon(best)
+            if len(cc) > len(cb) or (len(cc) == len(cb) and cc >= cb):
                 continue
             if fails(cand):
                 best = cand
